@@ -71,6 +71,8 @@ def gen_spec(rng: np.random.Generator, tier: str, hermitian: bool = True, **forc
         sparse_kind=str(rng.choice(["array", "array", "matrix"])),
         offset=int(rng.choice([0, 0, 0, 8192])),
     )
+    if spec["vtype"] == "sympy" and spec["design"] == "indices" and rng.random() < 0.35:
+        spec["container"] = "sympy_matrix"
     spec.update(force)
     return normalise(spec, thorough)
 
@@ -81,7 +83,9 @@ def normalise(spec: dict, thorough: bool = False) -> dict:
     n_par, N = spec["n_par"], sum(spec["sizes"])
     if spec["nblocks"] == 1 and spec["sel"] == "none":
         spec["sel"] = "fd_all"  # library default for a single block
-    if spec["extra_orders"]:
+    if spec["extra_orders"] and spec["container"] != "sympy_matrix":
+        spec["container"] = "dict"
+    if spec["container"] == "sympy_matrix" and not (spec["vtype"] == "sympy" and spec["design"] == "indices"):
         spec["container"] = "dict"
     max_total = {1: 4, 2: 3, 3: 2}[n_par] + (1 if thorough and n_par < 3 else 0)
     if n_par == 3 and spec["vtype"] != "sympy" and N <= (7 if thorough else 5):
@@ -528,6 +532,28 @@ def _encode(p: Problem, rng):
                 terms_enc[o] = dress0(T) if o == z else dress1(T)
             else:
                 terms_enc[o] = [[(dress0(T[i][j]) if (o == z and i == j) else (T[i][j] if o == z else dress1(T[i][j]))) for j in range(nb)] for i in range(nb)]
+    if spec["container"] == "sympy_matrix" and p.exact and design == "indices":
+        # one sympy matrix, polynomial in the perturbation symbols (the library Taylor-expands it); the returned
+        # elements carry the monomial by design, so the symbols are substituted by 1 when the outputs are read
+        lam = [sympy.Symbol(f"lam{k}", real=True) for k in range(p.n_par)]
+        poly = sympy.zeros(p.N, p.N)
+        for o, T in terms_enc.items():
+            mono = sympy.Integer(1)
+            for sy, k in zip(lam, o):
+                mono = mono * sy**k
+            poly = poly + mono * T
+        if not (set(lam) - poly.free_symbols):
+            subs_all = dict(p.notes.get("subs") or {})
+            subs_all.update({sy: 1 for sy in lam})
+            p.notes["subs"] = subs_all
+            kwargs["symbols"] = lam
+            if p.fd:
+                kwargs["fully_diagonalize"] = tuple(p.fd)
+            elif p.masks:
+                kwargs["fully_diagonalize"] = {b: np.array(m) for b, m in p.masks.items()}
+            p.hamiltonian = poly
+            p.kwargs = kwargs
+            return
     # container
     if spec["container"] == "list" and set(terms_enc) - {z} == {tuple(int(x) for x in row) for row in np.eye(p.n_par, dtype=int)}:
         ham = [terms_enc[z]] + [terms_enc[tuple(int(x) for x in row)] for row in np.eye(p.n_par, dtype=int)]
